@@ -1145,8 +1145,8 @@ def nat_com_str(c):
     return "while (%s) { %s }" % (nat_str(c[1]), nat_com_str(c[3]))
 
 
-def decode_nat_state(t, names):
-    """fun_upd chain over (%x. 0) -> dict; None if some value is not a numeral."""
+def decode_cells(t):
+    """fun_upd chain over (%x. 0) -> {cell: value}; None if it is not a chain of numerals."""
     from data.function import strip_fun_upd
     base, upds = strip_fun_upd(t)
     if not (base.is_abs() and base.body.is_number() and base.body.dest_number() == 0):
@@ -1156,92 +1156,340 @@ def decode_nat_state(t, names):
         if not (k.is_number() and v.is_number()):
             return None
         d[int(k.dest_number())] = int(v.dest_number())
-    return {n: d.get(ord(n) - 97, 0) for n in names}
+    return d
+
+
+class hard_time_limit:
+    """Like ctx.time_limit, but the alarm keeps firing every second after the deadline: holpy code that
+    swallows one exception (broad `except` clauses around conversions) cannot outlive the limit."""
+
+    def __init__(self, seconds):
+        self.seconds = seconds
+
+    def _handler(self, signum, frame):
+        raise Timeout()
+
+    def __enter__(self):
+        import signal
+        self.old = signal.signal(signal.SIGALRM, self._handler)
+        signal.setitimer(signal.ITIMER_REAL, self.seconds, 1.0)
+
+    def __exit__(self, *exc):
+        import signal
+        signal.setitimer(signal.ITIMER_REAL, 0)
+        signal.signal(signal.SIGALRM, self.old)
+        return False
+
+
+class NatFront:
+    """imperative/parser.py as the user meets it.  The state cell a variable name is stored in is
+    *observed* (the address in the term `parse_com("name := 0")` builds), never assumed."""
+
+    def __init__(self):
+        from imperative import parser as P1, imp
+        from kernel.type import NatType
+        from kernel.term import Nat, Lambda
+        from data import nat
+        from data.function import mk_const_fun, mk_fun_upd
+        self.P1, self.imp, self.Nat, self.Lambda = P1, imp, Nat, Lambda
+        self.zero_state = lambda: mk_const_fun(NatType, nat.zero)
+        self.mk_fun_upd = mk_fun_upd
+        self._cells = {}
+
+    def cell(self, name):
+        """The state cell of `name`, or None when the parser rejects an assignment to it."""
+        if name not in self._cells:
+            try:
+                with time_limit(10):
+                    c = self.P1.parse_com("%s := 0" % name)
+                a = c.args[0]
+                self._cells[name] = int(a.dest_number()) if c.is_comb("Assign", 2) and a.is_number() else None
+            except Timeout:
+                raise
+            except Exception:  # noqa
+                self._cells[name] = None
+        return self._cells[name]
+
+    def state(self, init):
+        st = self.zero_state()
+        for k, v in sorted(init.items()):
+            st = self.mk_fun_upd(st, self.Nat(self.cell(k)), self.Nat(v))
+        return st
+
+
+# names that are prefixes / suffixes of each other, start with a or A, contain digits and underscores
+BASES = ["x", "b", "c", "bc", "z", "xy", "ab", "y"]
+
+
+def gen_names(rng):
+    base = rng.choice(BASES)
+    vs = [base]
+    if rng.random() < 0.75:
+        vs.append("a" + base)
+    if rng.random() < 0.3:
+        vs.append("aa" + base)
+    if rng.random() < 0.3:
+        vs.append(base + "a")
+    if rng.random() < 0.3:
+        vs.append(base + base)
+    while len(vs) < 2 or rng.random() < 0.35:
+        vs.append(rng.choice(["a", "b", "x", "y", "ax", "ay", "ba", "aab", "abc", "za", "az", "zz", "x1", "_t", "a1", "a_", "xA", "Ax"]))
+    vs = list(dict.fromkeys(vs))
+    rng.shuffle(vs)
+    return vs[:5]
+
+
+def alias_witness(ctx, F, n1, n2, found_in):
+    """Two names of one program share a state cell: show it on the smallest program."""
+    from imperative import imp
+    c = ("seq", ("assign", n1, ("int", 1)), ("assign", n2, ("int", 2)))
+    src = nat_com_str(c)
+    replay = {"kind": "sem", "src": src, "init": {}, "com": c}
+    try:
+        with time_limit(30):
+            pt = imp.eval_Sem(F.P1.parse_com(src), F.state({}))
+        d = decode_cells(pt.prop.args[2])
+    except Timeout:
+        raise
+    except Exception:  # noqa
+        d = None
+    fin = None if d is None else {n1: d.get(F.cell(n1), 0), n2: d.get(F.cell(n2), 0)}
+    viol(ctx, "sem-alias:%s=%s" % tuple(sorted((n1, n2))),
+         "the distinct variables %s and %s are stored in the same state cell %s (seen in %r): eval_Sem proves final state %s for %r, "
+         "executing the program gives %s" % (n1, n2, F.cell(n1), found_in, fin, src, {n1: 1, n2: 2}), replay)
+
+
+def sem_case(ctx, F, c, init, check_proof=False):
+    """eval_Sem on one program text.  Returns (src, names, fin) when evaluation succeeded and agreed
+    with the reference interpreter, else None (failures / violations are registered here)."""
+    from kernel import theory
+    names = sorted(vars_of(c, set()) | set(init))
+    src = nat_com_str(c)
+    key = (src, tuple(sorted(init.items())))
+    replay = {"kind": "sem", "src": src, "init": init, "com": c}
+    try:
+        ref = run_ref(c, dict(init), [150])
+        ref = {v: ref.get(v, 0) for v in names}
+    except OutOfFuel:
+        ctx.count("sem:ref-diverges")
+        return None
+    except (Stuck, RecursionError):
+        return None
+    import sys
+    old_limit = sys.getrecursionlimit()
+    for v in names:
+        F.cell(v)           # observed (and cached) outside the timed block: time limits do not nest
+    try:
+        # holpy raises the recursion limit to 10^7 (prover/proofrec.py); a symbolic evaluation that does not
+        # terminate would then recurse for minutes.  The generated programs end within 150 steps.
+        sys.setrecursionlimit(min(old_limit, 20000))
+        with hard_time_limit(10):
+            if any(F.cell(k) is None for k in init):
+                raise NotImplementedError("initial state mentions a name the parser rejects")
+            st = F.state(init)
+            com = F.P1.parse_com(src)
+            pt = F.imp.eval_Sem(com, st)
+    except Timeout:
+        ctx.count("sem:impl-timeout")
+        return "timeout"
+    except RecursionError:
+        ctx.count("sem:impl-does-not-terminate")
+        return None
+    except Exception as e:  # noqa  (rejected by the parser / not evaluable: evaluation does not succeed)
+        ctx.count("sem:impl-fails:" + classify_exc(e))
+        ctx.case(("sem",) + key, nontrivial=False)
+        return None
+    finally:
+        sys.setrecursionlimit(old_limit)
+    multi = any(len(v) > 1 for v in names)
+    ctx.case(("sem",) + key, nontrivial=depth(c) >= 1)
+    ctx.count("sem:evaluated:%s:depth%d" % ("long-names" if multi else "one-letter", depth(c)))
+    prop = pt.prop
+    ok_shape = prop.is_comb("Sem", 3) and prop.args[0] == com and prop.args[1] == st and len(pt.hyps) == 0
+    if not ok_shape:
+        viol(ctx, "sem-shape:" + src, "eval_Sem returned %s, not a closed theorem Sem c s s'" % pt.th, replay)
+        return None
+    cells = decode_cells(prop.args[2])
+    if cells is None:
+        if any(ch.isupper() for v in names for ch in v):
+            ctx.count("sem:symbolic-final-state")       # program with parameters A, B, ...: nothing to compare
+            return None
+        viol(ctx, "sem-shape:" + src, "eval_Sem returned %s: the final state is not a numeral state" % pt.th, replay)
+        return None
+    # the name -> cell mapping seen in this theorem must keep distinct variables apart
+    cell_of = {v: F.cell(v) for v in names}
+    if any(cv is None for cv in cell_of.values()):
+        ctx.count("sem:name-without-cell")
+        return None
+    for a, b in itertools.combinations(names, 2):
+        if cell_of[a] == cell_of[b]:
+            alias_witness(ctx, F, a, b, src)
+    fin = {v: cells.get(cell_of[v], 0) for v in names}
+    stray = sorted(k for k in cells if k not in cell_of.values() and cells[k] != 0)
+    if fin != ref or stray:
+        viol(ctx, "sem-wrong-state:%s:%s" % (src, sorted(init.items())),
+             "eval_Sem proves final state %s%s for %r from %s (cells %s); executing the program text gives %s"
+             % (fin, " plus non-zero cells %s of no variable" % stray if stray else "", src, init, cell_of, ref), replay)
+        return None
+    if check_proof:
+        try:
+            with hard_time_limit(30):
+                th = theory.check_proof(pt.export())
+            if th != pt.th:
+                viol(ctx, "sem-proof:" + src, "the proof exported by eval_Sem checks to a different theorem", replay)
+        except Timeout:
+            ctx.count("sem:check-timeout")
+        except Exception as e:  # noqa
+            viol(ctx, "sem-proof:" + src, "the proof exported by eval_Sem is rejected by the checker (%s)" % classify_exc(e), replay)
+    return (src, names, fin)
 
 
 def sem_stage(ctx):
-    from imperative import parser as P1, imp
-    from kernel.type import NatType
-    from kernel.term import Nat
-    from kernel import theory
-    from data import nat
-    from data.function import mk_const_fun, mk_fun_upd
+    F = NatFront()
     rng = ctx.rng("sem")
-    names = ["a", "b", "c", "d"]
-    n = ctx.scale(90, 900)
+    n = ctx.scale(110, 1000)
     lines, recs = [], []
     ncheck = ntimeout = 0
+    # hand-written openers: aliases of one-letter names, prefixes/suffixes, the coordinator's example
+    V, I = (lambda x: ("var", x)), (lambda k: ("int", k))
+    fixed = [(("seq", ("assign", "x", I(4)), ("seq", ("assign", "ax", I(9)), ("seq", ("assign", "y", ("bin", "add", V("x"), I(1))),
+               ("cond", ("bin", "eq", V("ax"), I(9)), ("assign", "ax", ("bin", "add", V("ax"), V("x"))), ("skip",))))), {}),
+             (("seq", ("assign", "ab", I(1)), ("assign", "b", I(2))), {}),
+             (("seq", ("assign", "bc", I(1)), ("seq", ("assign", "abc", I(2)), ("assign", "c", ("bin", "add", V("bc"), V("abc"))))), {}),
+             (("assign", "xa", ("bin", "add", V("x"), V("ax"))), {"x": 1, "ax": 2}),
+             (("seq", ("assign", "aa", I(3)), ("assign", "b", V("a"))), {"a": 1}),
+             (("assign", "x1", I(1)), {}), (("assign", "a", V("AB")), {}), (("assign", "_t", I(1)), {})]
+    cases = list(fixed)
     for i in range(n):
         rich = rng.random() < 0.2
-        vs = names[:rng.randint(1, 4)]
+        if rng.random() < 0.45:
+            vs = gen_names(rng)
+        else:
+            vs = ["a", "b", "c", "d"][:rng.randint(1, 4)]
         c = gen_nat_com(rng, rng.randint(0, 4), vs, rich)
+        if rng.random() < 0.04:      # a parameter (capital letters are HOL variables, not program variables)
+            c = ("seq", c, ("assign", vs[0], ("bin", "add", ("var", vs[0]), ("var", rng.choice(["A", "B", "AB"])))))
         init = {v: rng.randint(0, 3) for v in vs if rng.random() < 0.6}
-        src = nat_com_str(c)
-        try:
-            ref = run_ref(c, dict(init), [150])
-            ref = {v: ref.get(v, 0) for v in names}
-        except OutOfFuel:
-            ctx.count("sem:ref-diverges")
+        cases.append((c, init))
+    import time
+    t0, budget = time.time(), ctx.scale(80, 420)
+    for c, init in cases:
+        if ntimeout >= 4 or time.time() - t0 > budget:
+            ctx.count("sem:skipped-after-timeouts" if ntimeout >= 4 else "sem:skipped-over-budget")
             continue
-        except (Stuck, RecursionError):
-            continue
-        st = mk_const_fun(NatType, nat.zero)
-        for k, v in sorted(init.items()):
-            st = mk_fun_upd(st, Nat(ord(k) - 97), Nat(v))
-        if ntimeout >= 4:
-            ctx.count("sem:skipped-after-timeouts")
-            continue
-        try:
-            with time_limit(15):
-                com = P1.parse_com(src)
-                pt = imp.eval_Sem(com, st)
-        except Timeout:
-            ctx.count("sem:impl-timeout")
+        do_check = ncheck < ctx.scale(25, 300)
+        r = sem_case(ctx, F, c, init, check_proof=do_check)
+        if r == "timeout":
             ntimeout += 1
             continue
-        except Exception as e:  # noqa
-            ctx.count("sem:impl-fails:" + classify_exc(e))
-            ctx.case(("sem", src, tuple(sorted(init.items()))), nontrivial=False)
+        if r is None:
             continue
-        ctx.case(("sem", src, tuple(sorted(init.items()))), nontrivial=depth(c) >= 1)
-        ctx.count("sem:evaluated:depth%d" % depth(c))
-        prop = pt.prop
-        ok_shape = prop.is_comb("Sem", 3) and prop.args[0] == com and prop.args[1] == st and len(pt.hyps) == 0
-        fin = decode_nat_state(prop.args[2], names) if ok_shape else None
-        replay = {"kind": "sem", "src": src, "init": init, "com": c}
-        if not ok_shape or fin is None:
-            viol(ctx, "sem-shape:" + src, "eval_Sem returned %s, not a closed theorem Sem c s <numeral state>" % pt.th, replay)
-            continue
-        if fin != ref:
-            viol(ctx, "sem-wrong-state:%s:%s" % (src, sorted(init.items())),
-                          "eval_Sem proves final state %s for %r from %s; executing the program gives %s" % (fin, src, init, ref), replay)
-            continue
-        if ncheck < ctx.scale(25, 300):
+        if do_check:
             ncheck += 1
-            try:
-                with time_limit(120):
-                    th = theory.check_proof(pt.export())
-                if th != pt.th:
-                    viol(ctx, "sem-proof:" + src, "the proof exported by eval_Sem checks to a different theorem", replay)
-            except Timeout:
-                ctx.count("sem:check-timeout")
-            except Exception as e:  # noqa
-                viol(ctx, "sem-proof:" + src, "the proof exported by eval_Sem is rejected by the checker (%s)" % classify_exc(e), replay)
-        lines.append(sexp.dumps(["interp", 100000, s_com(c), [[k, v] for k, v in sorted(init.items())], names]))
-        recs.append((src, init, fin))
+        src, names, fin = r
+        lines.append(sexp.dumps(["interp", 100000, s_com(c), [[sexp.enc(k), v] for k, v in sorted(init.items())], [sexp.enc(v) for v in names]]))
+        recs.append((src, init, names, fin))
     if recs:
-        ctx.sample({"eval_Sem": recs[0][0], "init": recs[0][1], "final": recs[0][2]})
+        ctx.sample({"eval_Sem": recs[-1][0], "init": recs[-1][1], "final": recs[-1][3]})
     out = ctx.lean_driver(EXE, lines) if lines else []
     if out is None or len(out) != len(lines):
         ctx.broken("correspondence:c20:driver", "model driver unavailable (interp stream)")
         return
     ndis = 0
-    for (src, init, fin), line in zip(recs, out):
+    for (src, init, names, fin), line in zip(recs, out):
         exp = "(ok (%s))" % " ".join(str(fin[v]) for v in names)
         if line != exp:
             ndis += 1
             if ndis <= 3:
                 ctx.broken("correspondence:c20:interp", "%r from %s: eval_Sem %s, Lean interpreter %s" % (src, init, exp, line))
+
+
+# ------------------------------------------------------------------ imp.vcg through parse_com / parse_cond
+def vcgnat_case(ctx, F, pre, c, post):
+    """`Valid pre c post` proved by imp.vcg_solve (VCs by Z3) and accepted by the checker  ==>  the triple
+    holds for the program TEXT: every execution from a state (values 0..2) satisfying pre ends in post."""
+    from kernel import theory
+    from kernel.report import ProofReport
+    src, spre, spost = nat_com_str(c), nat_str(pre), nat_str(post)
+    key = "%s | %s | %s" % (spre, src, spost)
+    replay = {"kind": "vcgnat", "pre": pre, "com": c, "post": post}
+    try:
+        with hard_time_limit(30):
+            com = F.P1.parse_com(src)
+            P = F.Lambda(F.P1.st, F.P1.parse_cond(spre))
+            Q = F.Lambda(F.P1.st, F.P1.parse_cond(spost))
+            goal = F.imp.Valid(F.P1.natFunT)(P, com, Q)
+            th = theory.check_proof(F.imp.vcg_solve(goal).export(), ProofReport())
+    except Timeout:
+        ctx.count("vcgnat:timeout")
+        return
+    except Exception as e:  # noqa  (parser rejects the names, Z3 does not prove a VC, ...)
+        ctx.count("vcgnat:not-proved:" + classify_exc(e))
+        ctx.case(("vcgnat", key), nontrivial=False)
+        return
+    if th.prop != goal or len(th.hyps) != 0:
+        ctx.count("vcgnat:other-theorem")
+        return
+    ctx.case(("vcgnat", key), nontrivial=True)
+    names = sorted(vars_of(pre, set()) | vars_of(c, set()) | vars_of(post, set()))
+    ctx.count("vcgnat:proved:%s" % ("long-names" if any(len(v) > 1 for v in names) else "one-letter"))
+    if len(names) > 5:
+        return
+    for vals in itertools.product((0, 1, 2), repeat=len(names)):
+        st = dict(zip(names, vals))
+        if ev(pre, st) is not True:
+            continue
+        try:
+            fin = run_ref(c, st, [400])
+        except (OutOfFuel, Stuck, RecursionError):
+            continue
+        if ev(post, fin) is not True:
+            viol(ctx, "vcgnat-unsound:" + key,
+                 "imp.vcg_solve proves Valid (%s) (%s) (%s) and the checker accepts it, but from %s the program text ends in %s"
+                 % (spre, src, spost, st, {k: fin.get(k, 0) for k in names}), replay)
+            return
+
+
+def vcgnat_stage(ctx):
+    F = NatFront()
+    rng = ctx.rng("vcgnat")
+    V, I = (lambda x: ("var", x)), (lambda k: ("int", k))
+    B = lambda o, a, b: ("bin", o, a, b)
+    cases = [(TRUE, ("seq", ("assign", "x", I(1)), ("assign", "ax", I(2))), B("eq", V("x"), I(2))),
+             (TRUE, ("seq", ("assign", "x", I(1)), ("assign", "ax", I(2))), B("eq", V("x"), I(1))),
+             (B("eq", V("ab"), I(0)), ("assign", "b", I(1)), B("eq", V("ab"), I(1))),
+             (B("and", B("eq", V("a"), I(0)), B("eq", V("b"), I(0))),
+              ("while", B("ne", V("a"), V("A")), B("eq", V("b"), B("mul", V("a"), V("B"))),
+               ("seq", ("assign", "b", B("add", V("b"), V("B"))), ("assign", "a", B("add", V("a"), I(1))))), B("eq", V("b"), B("mul", V("A"), V("B"))))]
+    for _ in range(ctx.scale(45, 500)):
+        vs = gen_names(rng)[:3] if rng.random() < 0.6 else ["a", "b", "c"][:rng.randint(1, 3)]
+        vs = [v for v in vs if v.isalpha() and v.islower()] or ["a", "b"]
+        # straight-line / conditional code over small constants; the postcondition is a guess about the final
+        # values that is right or wrong for the program text -- only provable guesses are judged
+        c = gen_nat_com(rng, rng.randint(1, 3), vs, False)
+        if has_loop(c):
+            c = ("seq", ("assign", vs[0], I(rng.randint(0, 2))), ("assign", vs[-1], B("add", V(vs[0]), I(1))))
+        pre = TRUE if rng.random() < 0.6 else B("eq", V(rng.choice(vs)), I(rng.randint(0, 2)))
+        guesses = []
+        for v in vs:
+            for st in ({}, {u: 1 for u in vs}):
+                try:
+                    guesses.append(B("eq", V(v), I(run_ref(c, dict(st), [200]).get(v, 0))))
+                except (OutOfFuel, Stuck, RecursionError):
+                    pass
+            guesses.append(B("eq", V(v), I(rng.randint(0, 4))))
+            guesses.append(B("eq", V(v), V(rng.choice(vs))))
+        post = rng.choice(guesses)
+        if rng.random() < 0.3:
+            post = B(rng.choice(["and", "or"]), post, rng.choice(guesses))
+        cases.append((pre, c, post))
+    import time
+    t0, budget = time.time(), ctx.scale(40, 240)
+    for pre, c, post in cases:
+        if time.time() - t0 > budget:
+            ctx.count("vcgnat:skipped-over-budget")
+            continue
+        vcgnat_case(ctx, F, pre, c, post)
 
 
 def interp_stage(ctx):
@@ -1412,7 +1660,11 @@ def run(ctx):
         "and post implied by invariant & ~guard; perturbed hand-verified templates (nested loops). Non-trivial = depth >= 1 and at least "
         "one VC. Printer/parser stream: random conditions of depth <= 4 plus every operator under every operator position, and token-"
         "perturbed strings. eval_Sem stream: programs in parser.py's language over nat states (depth <= 4, terminating per the reference "
-        "interpreter). Distinct by the printed input.")
+        "interpreter), 55% over the one-letter names a-d, 45% over longer names that are prefixes/suffixes of each other, start with a/aa, or "
+        "contain digits, underscores, capitals (rejected by the pinned parser: counted as not evaluated); the state cell of every name is "
+        "observed from parse_com, distinct names of a program must have distinct cells and the proved final state must be what the "
+        "reference interpreter computes from the program text. imp.vcg stream: Valid pre c post through parse_com/parse_cond + vcg_solve "
+        "(Z3) + checker over the same name pools, judged by executing the text on states 0..2. Distinct by the printed input.")
     try:
         if ctx.write_if_changed("Holpy/C20/Gen.lean", translate_hoare(ctx)):
             ctx.log("Gen.lean regenerated (changed)")
@@ -1435,7 +1687,8 @@ def run(ctx):
     from logic import logic
     replay_corpus(ctx, impl, logic)
     for name, stage in (("eval", lambda: eval_stage(ctx)), ("interp", lambda: interp_stage(ctx)), ("pp", lambda: pp_stage(ctx, impl, logic)),
-                        ("com-pp", lambda: com_pp_stage(ctx, impl)), ("vcs", lambda: vcs_stage(ctx, impl, logic)), ("sem", lambda: sem_stage(ctx))):
+                        ("com-pp", lambda: com_pp_stage(ctx, impl)), ("vcs", lambda: vcs_stage(ctx, impl, logic)), ("sem", lambda: sem_stage(ctx)),
+                        ("vcgnat", lambda: vcgnat_stage(ctx))):
         stage()
         ctx.log("stage %s done (%d cases so far)" % (name, ctx.coverage["evaluations"]))
 
@@ -1471,27 +1724,14 @@ def replay_one(ctx, impl, logic, r):
         sem_replay(ctx, r)
     elif kind == "compp":
         check_com_roundtrip(ctx, impl, tup(r["com"]))
+    elif kind == "vcgnat":
+        vcgnat_case(ctx, NatFront(), tup(r["pre"]), tup(r["com"]), tup(r["post"]))
 
 
 def sem_replay(ctx, r):
-    from imperative import parser as P1, imp
-    from kernel.type import NatType
-    from kernel.term import Nat
-    from data import nat
-    from data.function import mk_const_fun, mk_fun_upd
-    names = ["a", "b", "c", "d"]
-    st = mk_const_fun(NatType, nat.zero)
-    for k, v in sorted(r["init"].items()):
-        st = mk_fun_upd(st, Nat(ord(k) - 97), Nat(v))
-    com = P1.parse_com(r["src"])
-    pt = imp.eval_Sem(com, st)
-    fin = decode_nat_state(pt.prop.args[2], names)
-    ref = run_ref(tup(r["com"]), dict(r["init"]), [2000])
-    ref = {v: ref.get(v, 0) for v in names}
-    ctx.log("eval_Sem final state: %s; reference interpreter: %s" % (fin, ref))
-    if fin != ref:
-        viol(ctx, "sem-wrong-state:%s:%s" % (r["src"], sorted(r["init"].items())),
-                      "eval_Sem proves final state %s for %r from %s; executing the program gives %s" % (fin, r["src"], r["init"], ref), r)
+    F = NatFront()
+    res = sem_case(ctx, F, tup(r["com"]), dict(r["init"]))
+    ctx.log("eval_Sem on %r from %s: %s" % (r["src"], r["init"], "agrees with the reference interpreter: %s" % (res[2],) if isinstance(res, tuple) else "no agreeing result"))
 
 
 def replay(ctx, rp):
@@ -1516,8 +1756,9 @@ MANIFEST = {
             "strings, printer, parser (valid and token-perturbed strings, conditions and programs), expression evaluation, interpreter, "
             "imp.eval_Sem final states. The implementation's own outputs are judged by a reference interpreter: VC truth (as the HOL terms "
             "handed to the user) on the grid -3..3 and all visited states versus executions from every grid state satisfying the precondition; "
-            "printed-and-re-parsed conditions and convert_hol terms evaluated on the grid; eval_Sem theorems versus direct execution, exported "
-            "proofs re-checked.",
+            "printed-and-re-parsed conditions and convert_hol terms evaluated on the grid; eval_Sem theorems versus direct execution of the "
+            "program text (variable names of any length, name -> state cell mapping observed and required injective), exported proofs "
+            "re-checked; Valid triples proved by imp.vcg_solve through parse_com/parse_cond versus execution of the text.",
     "note": "Trusted: Lean kernel, propext/Quot.sound, the harness (generators, reference evaluator/interpreter, hoare.json translator, HOL-term "
             "evaluator), Lark's LALR tables and contextual lexer (grammar model tied by differential parsing), the holpy kernel for eval_Sem's "
             "theorems. Partial: the round-trip theorem is on tokens; lex(pp e) = toks e is checked on every generated expression, not proved. Not "
